@@ -8,6 +8,8 @@
 #include "strmcase.hpp"
 #include "icalgen.hpp"
 #include "c01_known.hpp"
+#include "daemon.hpp"
+#include <algorithm>
 
 using namespace vh;
 
@@ -22,6 +24,29 @@ static Verdict judge_attrs(const std::string &ics, const std::vector<std::string
 		size_t p = 0; while (p < got[i].size() && p < expected[i].size() && got[i][p] == expected[i][p]) p++;
 		size_t s = expected[i].rfind(' ', p); if (s == std::string::npos) s = 0;
 		return Verdict::fail("task #" + std::to_string(i + 1) + " differs from what was written at [" + expected[i].substr(s, 90) + "] read [" + got[i].substr(std::min(s, got[i].size()), 90) + "]");
+	}
+	return Verdict::pass();
+}
+
+// ---------- part C: the queue file echsd writes for a user with several tasks, read back
+static Verdict judge_chk(const std::string &ics, std::vector<std::string> expected) {
+	std::string spool = dm::make_spool(); if (spool.empty()) return Verdict::inconclusive("no spool");
+	dm::Trace tr = dm::run_session(spool, "USERS 1000\n" + dm::submit_op(1000, ics) + "CHK\n", 20.0);
+	auto files = dm::read_spool(spool); dm::rm_rf(spool);
+	if (!tr.sbx.ok()) return Verdict::fail("daemon: " + tr.sbx.describe());
+	size_t acc = 0; for (auto &e : tr.ev) if (e.k == dm::Ev::REPLY) for (auto &st : e.rp.status) if (st.second[0] == '2') acc++;
+	if (acc != expected.size()) { Verdict d; d.k = Verdict::DISCARD; return d; }   // not all accepted: not this part's subject
+	auto it = files.find("echsq_1000.ics"); if (it == files.end()) return Verdict::fail("no queue file was written for the user");
+	SbxResult r = sandbox([&](Out &o) { sut_buf_t b = {nullptr, 0, 0}; sut_parse_dump(it->second.data(), it->second.size(), nullptr, 0, 0, 0, &b); if (b.p) o.put(std::string(b.p, b.n)); }, 10.0);
+	if (!r.ok()) return Verdict::fail("reading the queue file back: " + r.describe());
+	std::vector<std::string> got; std::stringstream ss(r.out); std::string ln;
+	while (std::getline(ss, ln)) if (ln.compare(0, 5, "SCHE ") == 0) got.push_back(ln);
+	std::sort(got.begin(), got.end()); std::sort(expected.begin(), expected.end());
+	if (got.size() != expected.size()) return Verdict::fail("queue file holds " + std::to_string(got.size()) + " tasks, " + std::to_string(expected.size()) + " were accepted");
+	for (size_t i = 0; i < got.size(); i++) if (got[i] != expected[i]) {
+		size_t p = 0; while (p < got[i].size() && p < expected[i].size() && got[i][p] == expected[i][p]) p++;
+		size_t s0 = expected[i].rfind(' ', p); if (s0 == std::string::npos) s0 = 0;
+		return Verdict::fail("queue file of " + std::to_string(got.size()) + " tasks: " + expected[i].substr(0, expected[i].find(' ', 6)) + " was accepted with [" + expected[i].substr(s0, 90) + "] and reads back with [" + got[i].substr(std::min(s0, got[i].size()), 90) + "]");
 	}
 	return Verdict::pass();
 }
@@ -68,11 +93,13 @@ static Verdict judge_rt(const RT &c) {
 
 // case text: first line "attrs" / "rt k=<k> nocc=<n>", expected dumps as "E <line>" lines for attrs, then the calendar
 static std::string text_attrs(const std::string &ics, const std::vector<std::string> &exp) { std::string s = "attrs\n"; for (auto &e : exp) s += "E " + e + "\n"; return s + "ICS\n" + ics; }
+static std::string text_chk(const std::string &ics, const std::vector<std::string> &exp) { std::string s = "chk\n"; for (auto &e : exp) s += "E " + e + "\n"; return s + "ICS\n" + ics; }
 static std::string text_rt(const RT &c) { return "rt k=" + std::to_string(c.k) + " nocc=" + std::to_string(c.nocc) + "\nICS\n" + c.ics; }
 
 Verdict prop_replay(Ctx &, const std::string &t) {
 	size_t p = t.find("\nICS\n"); if (p == std::string::npos) return Verdict::inconclusive("bad case");
 	std::string head = t.substr(0, p), ics = t.substr(p + 5);
+	if (head.compare(0, 3, "chk") == 0) { std::vector<std::string> exp; std::stringstream ss(head); std::string ln; while (std::getline(ss, ln)) if (ln.compare(0, 2, "E ") == 0) exp.push_back(ln.substr(2)); Verdict v = judge_chk(ics, exp); if (v.k == Verdict::DISCARD) return Verdict::inconclusive("not all events accepted"); return v; }
 	if (head.compare(0, 5, "attrs") == 0) { std::vector<std::string> exp; std::stringstream ss(head); std::string ln; while (std::getline(ss, ln)) if (ln.compare(0, 2, "E ") == 0) exp.push_back(ln.substr(2)); return judge_attrs(ics, exp); }
 	RT c; c.ics = ics; if (sscanf(head.c_str(), "rt k=%d nocc=%d", &c.k, &c.nocc) != 2) return Verdict::inconclusive("bad case");
 	Verdict v = judge_rt(c); if (v.k == Verdict::DISCARD) return Verdict::inconclusive("event not accepted"); return v;
@@ -97,7 +124,28 @@ void prop_gen(Ctx &c) {
 	auto genB = rc::gen::tuple(rc::gen::container<std::vector<rgen::RuleCase>>(3, genExtRule), R(0, 100), ig::gen_task(), R(0, 12), R(0, 100), rc::gen::container<std::vector<int>>(5, R(0, 300)), R(0, 100), R(0, 8), R(0, 100), R(0, 4));
 	rc::check("C05", [&]() {
 		if (c.shrink_exhausted()) return;
-		if (*R(0, 100) < 40) {
+		int part = *R(0, 100);
+		if (part >= 88) {
+			// ---- part C: 2..4 tasks of one user, accepted by the daemon, checkpointed, the queue file read back
+			auto t = *genA;
+			std::vector<ig::Task> tasks(std::get<0>(t).begin(), std::get<0>(t).end()); { auto more = *ig::gen_task(); tasks.push_back(more); } tasks.resize(2 + (size_t)std::get<1>(t) % 3);
+			for (size_t i = 0; i < tasks.size(); i++) { ig::Task &k = tasks[i]; k.uid = "q" + std::to_string(i) + "-" + k.uid; k.start = civil::to_ms(2030, 1, 1 + (unsigned)i); k.sched_lines = {"RRULE:FREQ=YEARLY"};
+				k.owner = ig::NumOrName(); k.setuid = ig::NumOrName(); k.setgid = ig::NumOrName();   // credentials come from the connection
+				if (k.summary.empty()) k.summary = "true"; }
+			ig::CalDefaults d; std::string ics = ig::render_calendar(tasks, d, ig::Layout());
+			ig::CalDefaults q; q.owner.kind = 1; q.owner.num = 1000;   // what the daemon files the tasks under
+			std::vector<std::string> exp; for (auto &k : tasks) exp.push_back(ig::expected_dump(k, q));
+			std::string txt = text_chk(ics, exp);
+			Verdict v = judge_chk(ics, exp);
+			if (v.k == Verdict::DISCARD) RC_DISCARD("not accepted");
+			bool mixed = false; for (auto &k : tasks) for (auto &k2 : tasks) if ((k.max_simul >= 0) != (k2.max_simul >= 0)) mixed = true;
+			v.nontrivial = mixed; v.classes.push_back("chk/" + std::to_string(tasks.size()) + "-tasks"); if (mixed) v.classes.push_back("chk/max-simul-set-and-unset");
+			c.st.record(txt, v);
+			if (v.k == Verdict::FAIL && survey) { c.st.survey_add("C " + v.msg.substr(0, 60), txt.substr(0, 3000) + " :: " + v.msg); return; }
+			if (v.k == Verdict::FAIL) { c.note_fail(txt, v.msg); RC_FAIL(v.msg); }
+			return;
+		}
+		if (part < 35) {
 			// ---- part A
 			auto t = *genA;
 			std::vector<ig::Task> tasks(std::get<0>(t).begin(), std::get<0>(t).begin() + std::get<1>(t));
